@@ -418,6 +418,10 @@ var charClasses = []charClass{
 	// of a JSON string that stand for themselves, and the ones that need an escape (control characters, quote, backslash)
 	{"JSON_UNESCAPED", func(v int64) bool { return v >= 0x20 && v != '"' && v != '\\' }},
 	{"JSON_ESCAPED", func(v int64) bool { return v < 0x20 || v == '"' || v == '\\' }},
+	// raw-string = "'" *(raw-string-char / raw-string-escape) "'" with raw-string-escape = "\\" ("'" / "\\"): the two
+	// characters a backslash escapes in a raw string, and everything else (before which the backslash stands for itself)
+	{"RAW_ESCAPABLE", func(v int64) bool { return v == '\'' || v == '\\' }},
+	{"NOT_RAW_ESCAPABLE", func(v int64) bool { return v != '\'' && v != '\\' }},
 }
 
 // classify decides which grammar class a comparison-only predicate accepts. Because the predicate
@@ -430,7 +434,7 @@ func classify(consts []int64, eval func(int64) bool) string {
 	}
 	for _, cl := range charClasses {
 		// breakpoints of the class itself must be included for exactness
-		for _, b := range []int64{'0', '9', 'A', 'Z', 'a', 'z', '_', 'f', 'F', '\t', '\n', '\r', ' ', 0x1f, '"', '\\'} {
+		for _, b := range []int64{'0', '9', 'A', 'Z', 'a', 'z', '_', 'f', 'F', '\t', '\n', '\r', ' ', 0x1f, '"', '\\', '\''} {
 			pts[b-1], pts[b], pts[b+1] = true, true, true
 		}
 		same := true
